@@ -4,7 +4,7 @@
 //@ replace: xpoll_create xpoll_destroy xpoll_get_fd xcm_dns_resolve xcm_dns_query_process xcm_dns_query_result xcm_dns_query_destroy
 //@ flags: --object-bits 10
 //@ props: C13 C08
-//@ expect: postcondition>=7 canary=4
+//@ expect: postcondition>=7 canary=5
 #include "_unit_dns.h"
 void harness(void)
 {
@@ -14,12 +14,9 @@ void harness(void)
     int rv = xcm_dns_resolve_sync(host, log_ref);
     if (rv == 0 && !xv_polled) XV_CANARY("literal address");
     if (rv == 0 && xv_polled) XV_CANARY("resolved");
-    /* On the tree as found this outcome does not exist (F2: after a resolver failure the loop never exits), and a dead canary
-     * makes the driver say UNDECIDED instead of listing the failed obligations.  Enable once F2 is repaired:
-     *     if (rv == -1 && xv_q_failed_seen && xv_errno == ENOENT) XV_CANARY("resolver failure reported");            */
-#ifdef XV_F2_REPAIRED
+    /* (on a tree with defect F2 -- the loop tests the pointer `query < 0` instead of `query_rc < 0` -- this outcome does not exist:
+     *  after a resolver failure the loop never exits; the failed loop-invariant / pointer-relation obligations say so) */
     if (rv == -1 && xv_q_failed_seen && xv_errno == ENOENT) XV_CANARY("resolver failure reported");
-#endif
     if (rv == -1 && !xv_polled) XV_CANARY("xpoll or query could not be created");
     if (rv == -1 && xv_polled && xv_poll_rc == -1 && xv_errno == EINTR) XV_CANARY("poll interrupted");
 }
